@@ -4,6 +4,7 @@ their evidence goes to evidence/extra/, their verdict lines use the ids E01.. an
 E01  accfg-insert-resets: an inserted reset never changes what a launch observes, and at function return every chain of
      configuration states has ended in a reset (contract `resets`).
 E03  convert-linalg-to-dart: the streamed operands / patterns are the used operands / their indexing maps; same scalar body.
+E04  dart-fuse-operations: the function returns the same tensors before and after fusion (tensor-level meaning in spec/Dart.tla).
 E02  snax-to-func / snax-lower-mcycle: lowering of cluster barriers and cycle-counter reads is an event renaming: the lowered
      program performs the same side effects in the same order, every snax.cluster_sync_op becomes exactly one call of
      snax_cluster_hw_barrier on every path (contract `effects` after renaming).
@@ -276,9 +277,264 @@ def run_streamify(pid, tier, seed):
     return rep.finish(known)
 
 
+# ---------------------------------------------------------------------------------------------------------------------------
+# E04 dart-fuse-operations against the tensor-level meaning of dart.operation (spec/Dart.tla)
+
+def export_dart_prog(module):
+    """func.func of dart.operation ops on tensors -> program record of Dart.tla (syntactic: shapes, operand ids, integer affine
+    maps of the patterns, the generics' kernel op and wiring)."""
+    from xdsl.dialects import arith, func, tensor
+    from xdsl.dialects.builtin import IntegerAttr, TensorType
+    from xdsl.ir import BlockArgument
+    from xdsl.ir.affine import AffineBinaryOpExpr, AffineBinaryOpKind, AffineConstantExpr, AffineDimExpr
+
+    from snaxc.dialects import dart
+    fn = [o for o in module.walk() if isinstance(o, func.FuncOp)][0]
+    ids, shapes, consts = {}, [], {}
+
+    def new_tensor(v):
+        assert isinstance(v.type, TensorType), v.type
+        shapes.append(list(v.type.get_shape()))
+        ids[v] = len(shapes)
+
+    def row(expr, nd):
+        r, b = [0] * nd, 0
+        todo = [expr]
+        while todo:
+            e = todo.pop()
+            if isinstance(e, AffineDimExpr):
+                r[e.position] += 1
+            elif isinstance(e, AffineConstantExpr):
+                b += e.value
+            elif isinstance(e, AffineBinaryOpExpr) and e.kind == AffineBinaryOpKind.Add:
+                todo += [e.lhs, e.rhs]
+            elif isinstance(e, AffineBinaryOpExpr) and e.kind == AffineBinaryOpKind.Mul and isinstance(e.lhs, AffineDimExpr) and isinstance(e.rhs, AffineConstantExpr):
+                r[e.lhs.position] += e.rhs.value
+            else:
+                raise MachineryError(f"pattern expression {e} is outside the exported class")
+        return r, b
+
+    for a in fn.body.block.args:
+        new_tensor(a)
+    nargs = len(shapes)
+    ops, ret = [], []
+    for o in fn.body.block.ops:
+        if isinstance(o, tensor.EmptyOp):
+            new_tensor(o.results[0])
+        elif isinstance(o, arith.ConstantOp):
+            assert isinstance(o.value, IntegerAttr)
+            consts[o.results[0]] = o.value.value.data
+        elif isinstance(o, dart.OperationOp):
+            assert len(o.results) == 1
+            opnds = list(o.inputs) + list(o.outputs)
+            pats = []
+            for pa in o.patterns.data:
+                m = pa.data
+                rows = [row(e, m.num_dims) for e in m.results]
+                pats.append({"A": [r for r, _ in rows], "b": [b for _, b in rows]})
+            blk = o.body.block
+            gens, gid, y = [], {}, None
+            for g in blk.ops:
+                if isinstance(g, dart.GenericOp):
+                    refs = []
+                    for i in g.inputs:
+                        if isinstance(i, BlockArgument) and i.block is blk:
+                            refs.append({"t": "s", "v": i.index + 1})
+                        elif i in gid:
+                            refs.append({"t": "g", "v": gid[i]})
+                        elif i in consts:
+                            refs.append({"t": "c", "v": consts[i]})
+                        else:
+                            raise MachineryError(f"generic input {i} is neither a stream, a generic result nor a constant")
+                    body = list(g.body.block.ops)
+                    assert len(body) == 2 and body[1].name == "dart.yield" and list(body[1].operands) == list(body[0].results), str(g)
+                    b = []
+                    for x in body[0].operands:
+                        assert isinstance(x, BlockArgument) and x.block is g.body.block and x.index < len(g.inputs), str(g)
+                        b.append(x.index + 1)
+                    gens.append({"k": body[0].name, "a": refs, "b": b})
+                    gid[g.results[0]] = len(gens)
+                elif isinstance(g, dart.YieldOp):
+                    v = g.operands[0]
+                    y = {"t": "g", "v": gid[v]} if v in gid else {"t": "s", "v": v.index + 1}
+                else:
+                    raise MachineryError(f"unexpected op {g.name} in a dart.operation")
+            new_tensor(o.results[0])
+            ops.append({"opnds": [ids[v] for v in opnds], "pats": pats, "nd": o.patterns.data[0].data.num_dims, "gens": gens, "y": y, "res": ids[o.results[0]]})
+        elif isinstance(o, func.ReturnOp):
+            ret = [ids[v] for v in o.operands]
+        else:
+            raise MachineryError(f"unexpected op {o.name} in a dart function")
+    return {"shapes": shapes, "nargs": nargs, "ops": ops, "ret": ret}
+
+
+def gen_dart_chain(rng, carve=True):
+    """text of a function with 2-3 chained dart.operation ops; carve: stay outside the two recorded findings"""
+    D = [2, 3, 2]      # lengths of d0, d1, d2
+    args, lines, info = [], [], []
+    w = 32
+
+    def new_arg(shape):
+        args.append(f"%a{len(args)} : tensor<{'x'.join(str(x) for x in shape)}xi{w}>")
+        return f"%a{len(args) - 1}", f"tensor<{'x'.join(str(x) for x in shape)}xi{w}>"
+
+    def operand(kind):      # a fresh argument read through pattern kind over (d0, d1)
+        if kind == "id":
+            return new_arg([D[0], D[1]]) + ("(d0, d1) -> (d0, d1)",)
+        if kind == "tr":
+            return new_arg([D[1], D[0]]) + ("(d0, d1) -> (d1, d0)",)
+        if kind == "b0":
+            return new_arg([D[0]]) + ("(d0, d1) -> (d0)",)
+        return new_arg([D[1]]) + ("(d0, d1) -> (d1)",)
+
+    oty = f"tensor<{D[0]}x{D[1]}xi{w}>"
+    acc = rng.choice(["snax_gemmx", "snax_alu"])
+    nops = rng.choice([2, 2, 3])
+    prev = None
+    tags = []
+    for k in range(nops):
+        e = f"%e{k}"
+        lines.append(f"  {e} = tensor.empty() : {oty}")
+        if k == 0 and rng.random() < 0.45:
+            # matmul-like producer with a reduction
+            (a, ta), (b, tb) = new_arg([D[0], D[2]]), new_arg([D[2], D[1]])
+            zp = rng.choice([0, 0, 1])
+            lines.append(f"  %zp = arith.constant {zp} : i32")
+            lines.append(f"""  %r{k} = "dart.operation"({a}, {b}, {e}) <{{patterns = [affine_map<(d0, d1, d2) -> (d0, d2)>, affine_map<(d0, d1, d2) -> (d2, d1)>, affine_map<(d0, d1, d2) -> (d0, d1)>], accelerator = "{acc}", operandSegmentSizes = array<i32: 2, 1>}}> ({{
+  ^bb0(%s0 : !dart.stream<i32>, %s1 : !dart.stream<i32>, %s2 : !dart.stream<i32>):
+    %g = "dart.generic"(%s0, %s1, %zp, %zp) <{{library_call = "{acc}"}}> ({{
+    ^bb1(%x0 : i32, %x1 : i32, %x2 : i32, %x3 : i32, %xo : i32):
+      %v = kernel.qmac %x0, %x1 zp_lhs : %x2 zp_rhs : %x3 : i32, i32, i32, i32 -> i32
+      dart.yield %v : i32
+    }}) : (!dart.stream<i32>, !dart.stream<i32>, i32, i32) -> !dart.stream<i32>
+    dart.yield %g : !dart.stream<i32>
+  }}) : ({ta}, {tb}, {oty}) -> {oty}""")
+            tags.append("mm")
+        else:
+            kern = rng.choice(["add", "add", "mul"])
+            ins = []
+            nin = rng.choice([1, 2, 2])
+            pos = rng.randrange(nin) if prev else -1
+            if carve and prev and pos != 0:
+                pos = 0                       # finding E04/consumer-operand-position: the fused value is only wired right as input 0
+            for j in range(nin):
+                if j == pos:
+                    ins.append((prev, oty, "(d0, d1) -> (d0, d1)"))
+                else:
+                    kinds = ["id", "id", "b0", "b1"] if prev else ["id", "id", "tr", "b0", "b1"]
+                    ins.append(operand(rng.choice(kinds)))
+            if nin == 1:
+                ins.append(ins[0] if rng.random() < 0.5 and ins[0][0] != prev else operand("id"))
+            omap = "(d0, d1) -> (d0, d1)"
+            swap = rng.random() < 0.3
+            x0, x1 = ("%x1", "%x0") if swap else ("%x0", "%x1")
+            lines.append(f"""  %r{k} = "dart.operation"({ins[0][0]}, {ins[1][0]}, {e}) <{{patterns = [affine_map<{ins[0][2]}>, affine_map<{ins[1][2]}>, affine_map<{omap}>], accelerator = "{acc}", operandSegmentSizes = array<i32: 2, 1>}}> ({{
+  ^bb0(%s0 : !dart.stream<i32>, %s1 : !dart.stream<i32>, %s2 : !dart.stream<i32>):
+    %g = "dart.generic"(%s0, %s1) <{{library_call = "{acc}"}}> ({{
+    ^bb1(%x0 : i32, %x1 : i32, %xo : i32):
+      %v = kernel.{kern} {x0}, {x1} : i32, i32 -> i32
+      dart.yield %v : i32
+    }}) : (!dart.stream<i32>, !dart.stream<i32>) -> !dart.stream<i32>
+    dart.yield %g : !dart.stream<i32>
+  }}) : ({ins[0][1]}, {ins[1][1]}, {oty}) -> {oty}""")
+            tags.append(kern + ("@%d" % pos if prev else ""))
+        prev = f"%r{k}"
+    rets = [prev]
+    if rng.random() < 0.2 and nops >= 2:
+        rets.append("%r0")         # a second use of the first result: that producer must stay
+    text = ("builtin.module {\nfunc.func public @f(" + ", ".join(args) + ") -> (" + ", ".join([oty] * len(rets)) + ") {\n" + "\n".join(lines)
+            + f"\n  func.return {', '.join(rets)} : {', '.join([oty] * len(rets))}\n}}\n}}\n")
+    return text, "+".join(tags)
+
+
+def run_fuse(pid, tier, seed):
+    """E04 dart-fuse-operations: the function returns the same tensors before and after fusion, for the tensor-level meaning of
+    dart.operation in spec/Dart.tla."""
+    import glob
+    import json
+    import random
+
+    from objs import run_obj_batch
+    from snaxc.dialects import dart
+    rep = ExtraReport(pid, tier, seed)
+    known = KnownFindings()
+    rng = random.Random(seed)
+    n = 300 if tier == "quick" else 4000
+    cases = []
+    fused = 0
+
+    def add(name, text, tag, is_known=None):
+        nonlocal fused
+        try:
+            src = repo.parse(text)
+            src.verify()
+        except Exception as e:
+            raise MachineryError(f"generator produced invalid input: {e}\n{text}")
+        m = src.clone()
+        try:
+            repo.run_pipeline(m, "dart-fuse-operations")
+            m.verify()
+        except (NotImplementedError, RuntimeError):
+            rep.refused += 1
+            return
+        except Exception as e:
+            rep.evaluations += 1
+            rep.violation(name, f"dart-fuse-operations raised {type(e).__name__}: {str(e)[:200]}", {"source": text, "exception": traceback.format_exc(limit=6)})
+            return
+        A, B = export_dart_prog(src), export_dart_prog(m)
+        fused += len(B["ops"]) < len(A["ops"])
+        vrng = random.Random(text_hash(text))
+        vals = [[[vrng.randint(-4, 9) for _ in range(_prod(A["shapes"][i]))] for i in range(A["nargs"])] for _ in range(2)]
+        cases.append({"kind": "dartpair", "name": name, "A": A, "B": B, "vals": vals, "text": text, "after": str(m)[:4000], "tag": tag, "known": is_known or ""})
+
+    for f in sorted(glob.glob(os.path.join(VERIF, "known", "E04", "*.mlir"))):
+        add("known:" + os.path.basename(f), open(f).read(), "witness", is_known=os.path.basename(f))
+    for k in range(n):
+        text, tag = gen_dart_chain(rng)
+        add(f"gen:{seed}:{k}", text, tag)
+    rep.rule = (f"{n} generated functions of 2-3 chained dart.operation ops on tensors (matmul-like producer with a reduction or element-wise add/mul "
+                "with identity / transposed / broadcast operands, swapped kernel operands, results with a second use) through the real "
+                "dart-fuse-operations; TLC evaluates both functions with spec/Dart.tla on two argument valuations and compares the returned tensors "
+                f"(ObjCheck kind dartpair); {fused} cases were really fused")
+    rep.extra["really_fused"] = fused
+    if fused == 0 and n > 50:
+        raise MachineryError("no generated function was fused: the check would be vacuous")
+    for lo in range(0, len(cases), 500):
+        chunk = cases[lo:lo + 500]
+        r, verdicts = run_obj_batch(pid, chunk, tag=f"fuse{lo}")
+        rep.add_tlc(r)
+        for tid, v in verdicts.items():
+            c = chunk[tid - 1]
+            rep.evaluations += 1
+            rep.traces += 1
+            rep.nontrivial.add(text_hash(c["text"]))
+            if len(rep.samples) < 2 and len(c["B"]["ops"]) < len(c["A"]["ops"]):
+                rep.samples.append({"case": c["name"], "source": c["text"], "after": c["after"]})
+            if v == "SourceWellFormed":
+                raise MachineryError(f"generated program is not well formed for Dart.tla: {c['text']}")
+            if v != "ok":
+                if c["known"]:
+                    print(f"KNOWN-FINDING: property={pid} {c['known']}: clause {v} (witness known/E04/{c['known']})")
+                    rep.known_hits.append(c["known"])
+                    continue
+                rep.violation(c["name"], f"clause {v} fails ({c['tag']})", {"source": c["text"], "after": c["after"], "clause": v})
+            elif c["known"]:
+                rep.violation(c["name"], "the recorded witness no longer fails: remove it from known/E04 and from the generator's carve-outs", {"source": c["text"]})
+    return rep.finish(known)
+
+
+def _prod(xs):
+    r = 1
+    for x in xs:
+        r *= x
+    return r
+
+
 def run(pid: str, tier: str, seed: int, selftest=False, replay=None) -> int:
     if pid == "E03":
         return run_streamify(pid, tier, seed)
+    if pid == "E04":
+        return run_fuse(pid, tier, seed)
     if pid == "E01":
         return run_resets(pid, tier, seed)
     if pid == "E02":
